@@ -571,3 +571,119 @@ def nonempty_of(t):
         if b[0] == 'call' and b[1].endswith('::len') and b[2] and ((t0[1] in ('Lt', 'Ne') and k == 0) or (t0[1] == 'Le' and k == 1)):
             return b[2][0]
     return None
+
+
+def r_setters(ctx, prefixes, rule='R-SETTER'):
+    """Option setters of the builder types are faithful: `b.opt(x)` replaces exactly that one option by the caller's value,
+    on every path, and leaves every other option of the builder as it was (so the order in which options are given does not
+    matter and no value of an option is silently reinterpreted)."""
+    F = ctx.F
+    n = 0
+    for f in F.lib_fns():
+        if not f.path.startswith(prefixes) or '{closure' in f.path or f.arg_count != 2:
+            continue
+        if not f.local_ty(1).startswith('&mut ') or not f.ret_ty().startswith('&mut '):
+            continue
+        n += 1
+        stores = []   # (block, field path tuple, type of the assigned place, value term)
+        for bi, blk in enumerate(f.blocks):
+            if blk['cleanup']:
+                continue
+            for si, st in enumerate(blk['stmts']):
+                pl = st['place']
+                if pl['l'] == 1 and pl['p'] and pl['p'][0]['k'] == 'deref':
+                    path = tuple(e.get('n') for e in pl['p'][1:] if e['k'] == 'field')
+                    ty = [e.get('ty') for e in pl['p'] if e['k'] == 'field'][-1:] or ['?']
+                    rv = st['rv']
+                    val = f.term(rv['o']) if rv['k'] == 'use' else f._def_term(('assign', bi, si, rv, []), 0, frozenset())
+                    stores.append((bi, path, ty[0], val))
+            t = blk['term']
+            if t['k'] == 'call' and t['dest']['l'] == 1 and t['dest']['p'] and t['dest']['p'][0]['k'] == 'deref':
+                path = tuple(e.get('n') for e in t['dest']['p'][1:] if e['k'] == 'field')
+                ty = [e.get('ty') for e in t['dest']['p'] if e['k'] == 'field'][-1:] or ['?']
+                c = f.call_at(bi)
+                stores.append((bi, path, ty[0], ('call', c.callee, [c.arg_term(i) for i in range(len(c.args))], bi)))
+            # `self.opt.replace(x)` / `self.opt.insert(x)` / `mem::replace(&mut self.opt, x)`: a store through a `&mut` to the field
+            if t['k'] == 'call' and (t.get('callee') or '').endswith(('Option::<T>::replace', 'Option::<T>::insert', 'mem::replace')) and len(t['args']) == 2:
+                c = f.call_at(bi)
+                a0 = strip(c.arg_term(0))
+                base = a0
+                names = []
+                while base[0] in ('ref', 'deref', 'field'):
+                    if base[0] == 'field':
+                        names.append(base[2])
+                    base = strip(base[1])
+                if base[0] == 'arg' and base[1] == 1 and names:
+                    fty = f.local_ty(t['args'][0]['place']['l']) if t['args'][0].get('k') in ('copy', 'move') else ''
+                    fty = fty[len('&mut '):] if fty.startswith('&mut ') else fty
+                    val = c.arg_term(1)
+                    if not t['callee'].endswith('mem::replace'):
+                        val = ('agg', 'std::option::Option', 'Some', [('0', val)])
+                    stores.append((bi, tuple(reversed(names)), fty, val))
+        # `helper(|opts| opts.x = Some(v))` (helper virtually inlined): the store sits in a local closure applied to `&mut self.<prefix>`
+        for bi, blk in enumerate(f.blocks):
+            t = blk['term']
+            if blk['cleanup'] or t['k'] != 'call' or not (t.get('callee') or '').endswith(('FnOnce::call_once', 'FnMut::call_mut', 'Fn::call')):
+                continue
+            c = f.call_at(bi)
+            clo = strip(c.arg_term(0))
+            while clo[0] in ('ref', 'deref'):
+                clo = strip(clo[1])
+            tup = strip(c.arg_term(1)) if len(c.args) > 1 else ('unknown',)
+            if clo[0] != 'closure' or F.fn(clo[1]) is None or tup[0] != 'tuple' or len(tup[1]) != 1:
+                continue
+            base = strip(tup[1][0])
+            prefix = []
+            while base[0] in ('ref', 'deref', 'field'):
+                if base[0] == 'field':
+                    prefix.append(base[2])
+                base = strip(base[1])
+            if not (base[0] == 'arg' and base[1] == 1):
+                continue
+            g = F.fn(clo[1])
+            caps = list(clo[2]) if len(clo) > 2 else []
+            from reader_rules import closure_subst
+            for gi, gblk in enumerate(g.blocks):
+                if gblk['cleanup']:
+                    continue
+                for si, st in enumerate(gblk['stmts']):
+                    pl = st['place']
+                    if pl['l'] == 2 and pl['p'] and pl['p'][0]['k'] == 'deref':
+                        path = tuple(reversed(prefix)) + tuple(e.get('n') for e in pl['p'][1:] if e['k'] == 'field')
+                        ty = [e.get('ty') for e in pl['p'] if e['k'] == 'field'][-1:] or ['?']
+                        rv = st['rv']
+                        val = g.term(rv['o']) if rv['k'] == 'use' else g._def_term(('assign', gi, si, rv, []), 0, frozenset())
+                        val = closure_subst(val, caps)
+                        # only unconditional inside the closure as well
+                        blk_ok = all(g.dominates(gi, r) for r in g.return_blocks())
+                        stores.append((bi if blk_ok else -1, path, ty[0], val))
+        name = f.path.rsplit('::', 1)[1]
+        paths_set = {p for b, p, ty, v in stores}
+        why = None
+        if len(paths_set) != 1:
+            why = 'it assigns %s' % (sorted('.'.join(map(str, p)) for p in paths_set) or 'nothing')
+        else:
+            rets = f.return_blocks()
+            for b, p, ty, v in stores:
+                base_ty = (ty or '').split('<')[0]
+                a = F.adts.get(base_ty)
+                if a is not None and a.get('kind') == 'Struct' and sum(len(vv.get('fields', [])) for vv in a.get('variants', [])) > 1 and not base_ty.startswith(('std::', 'core::', 'alloc::')):
+                    why = 'it replaces the whole `%s` (every other option is reset)' % base_ty
+                    break
+                v0 = strip(v)
+                if not any(y[0] == 'arg' and y[1] == 2 for y in walk(v0)):
+                    why = 'the stored value does not come from the argument'
+                    break
+                if any(y[0] == 'phi' for y in walk(v0)):
+                    why = 'the stored value depends on a condition (%s)' % show(v0)[:60]
+                    break
+                if (ty or '').startswith(('std::option::Option', 'core::option::Option')) and not (v0[0] == 'agg' and v0[2] == 'Some'):
+                    why = 'the option is not set to Some(argument) (%s)' % show(v0)[:60]
+                    break
+                if b < 0 or not all(f.dominates(b, r) for r in rets):
+                    why = 'the store does not happen on every path'
+                    break
+        ctx.check(why is None, rule, f.path.split('::<')[0].split('::')[-2].split('<')[0] + '::' + name if False else '%s' % f.path, f.loc(),
+                  'sets exactly its own option to the caller\'s value, unconditionally',
+                  'the setter `%s` is not a plain "replace this one option by the argument": %s -- other options given before it, or particular values of this one, would be lost or reinterpreted' % (f.path, why))
+    return n
